@@ -21,6 +21,8 @@
 name: mbuff.splice.accept
 define: VERIF_MB_GHOSTCOPY, VERIF_MB_GHOST1, U_SPLICE, U_ACCEPT
 src: mbuff.c
+native: mbuff
+native_includes: mbuff.c
 enforce: spif_mbuff_splice
 backend: sat
 objbits: 6
@@ -31,6 +33,8 @@ timeout: 500
 name: mbuff.splice.negcnt
 define: VERIF_MB_GHOSTCOPY, VERIF_MB_GHOST1, U_SPLICE, U_NEGCNT
 src: mbuff.c
+native: mbuff
+native_includes: mbuff.c
 enforce: spif_mbuff_splice
 backend: sat
 objbits: 6
@@ -41,6 +45,8 @@ timeout: 500
 name: mbuff.splice.refuse
 define: VERIF_MB_GHOSTCOPY, VERIF_MB_GHOST1, U_SPLICE, U_REFUSE
 src: mbuff.c
+native: mbuff
+native_includes: mbuff.c
 enforce: spif_mbuff_splice
 backend: sat
 objbits: 6
@@ -51,6 +57,8 @@ timeout: 500
 name: mbuff.splice_from_ptr.accept
 define: VERIF_MB_GHOSTCOPY, VERIF_MB_GHOST1, U_SPLICE_PTR, U_ACCEPT
 src: mbuff.c
+native: mbuff
+native_includes: mbuff.c
 enforce: spif_mbuff_splice_from_ptr
 backend: sat
 objbits: 6
@@ -61,6 +69,8 @@ timeout: 500
 name: mbuff.splice_from_ptr.negcnt
 define: VERIF_MB_GHOSTCOPY, VERIF_MB_GHOST1, U_SPLICE_PTR, U_NEGCNT
 src: mbuff.c
+native: mbuff
+native_includes: mbuff.c
 enforce: spif_mbuff_splice_from_ptr
 backend: sat
 objbits: 6
@@ -71,6 +81,8 @@ timeout: 500
 name: mbuff.splice_from_ptr.refuse
 define: VERIF_MB_GHOSTCOPY, VERIF_MB_GHOST1, U_SPLICE_PTR, U_REFUSE
 src: mbuff.c
+native: mbuff
+native_includes: mbuff.c
 enforce: spif_mbuff_splice_from_ptr
 backend: sat
 objbits: 6
@@ -81,6 +93,8 @@ timeout: 500
 name: mbuff.splice.accept.view
 define: VERIF_MB_GHOSTCOPY, VERIF_MB_GHOST1, U_SPLICE, U_ACCEPT, U_VIEW
 src: mbuff.c
+native: mbuff
+native_includes: mbuff.c
 backend: sat
 flags: --slice-formula
 funcs: spif_mbuff_splice
@@ -89,6 +103,8 @@ funcs: spif_mbuff_splice
 name: mbuff.splice.negcnt.view
 define: VERIF_MB_GHOSTCOPY, VERIF_MB_GHOST1, U_SPLICE, U_NEGCNT, U_VIEW
 src: mbuff.c
+native: mbuff
+native_includes: mbuff.c
 backend: sat
 flags: --slice-formula
 funcs: spif_mbuff_splice
@@ -97,6 +113,8 @@ funcs: spif_mbuff_splice
 name: mbuff.splice_from_ptr.accept.view
 define: VERIF_MB_GHOSTCOPY, VERIF_MB_GHOST1, U_SPLICE_PTR, U_ACCEPT, U_VIEW
 src: mbuff.c
+native: mbuff
+native_includes: mbuff.c
 backend: sat
 flags: --slice-formula
 funcs: spif_mbuff_splice_from_ptr
@@ -105,6 +123,8 @@ funcs: spif_mbuff_splice_from_ptr
 name: mbuff.splice_from_ptr.negcnt.view
 define: VERIF_MB_GHOSTCOPY, VERIF_MB_GHOST1, U_SPLICE_PTR, U_NEGCNT, U_VIEW
 src: mbuff.c
+native: mbuff
+native_includes: mbuff.c
 backend: sat
 flags: --slice-formula
 funcs: spif_mbuff_splice_from_ptr
@@ -138,12 +158,14 @@ funcs: spif_mbuff_splice_from_ptr
 spif_bool_t spif_mbuff_splice(spif_mbuff_t self, spif_memidx_t idx, spif_memidx_t cnt, spif_mbuff_t other)
 __CPROVER_requires(MBUFF_INV(self) && (other == NULL || MBUFF_INV(other)))
 __CPROVER_requires(self->len + (other == NULL ? 0 : other->len) <= VCAP)
+__CPROVER_requires(MB_WIT_SELF(self) && MB_WIT_OTHER(other))
 #else
 # define N_INS   ((size_t) (other == NULL ? 0 : len))
 # define INS(k)  (other[(k)])
 spif_bool_t spif_mbuff_splice_from_ptr(spif_mbuff_t self, spif_memidx_t idx, spif_memidx_t cnt, spif_byteptr_t other, spif_memidx_t len)
 __CPROVER_requires(MBUFF_INV(self) && 0 <= len && len <= VCAP && (other == NULL || __CPROVER_is_fresh(other, (size_t) len)))
 __CPROVER_requires(self->len + len <= VCAP)
+__CPROVER_requires(MB_WIT_SELF(self))
 #endif
 /* cnt and idx are arbitrary 64-bit values except that idx + len and len - idx + cnt must be representable */
 __CPROVER_requires(IDX_RANGE(idx) && IDX_RANGE(cnt))
@@ -223,7 +245,10 @@ void harness(void)
         else if (vg_k < i + n) want = ins[vg_k - i];
         else want = self->buff[vg_k - n + c];
     }
-    w_idx = idx; w_cnt = cnt; w_n = (long) n;
+    w_idx = idx; w_cnt = cnt; w_n = (long) n; w_len = self->len; w_size = self->size;
+# ifdef U_SPLICE
+    if (other) { w_olen = other->len; w_osize = other->size; }
+# endif
 # ifdef U_SPLICE
     spif_bool_t r = spif_mbuff_splice(self, idx, cnt, other);
 # else
